@@ -14,9 +14,12 @@ AEAD_TOK = re.compile(r'gcm|ccm|chacha.*poly|snow_?v_aead|pon|docsis.*crc', re.I
 
 def run(chk):
     P = cf.Program()
+    import re as _re
+    from . import clones
     chk.explanation = ('NOT decided: equality of output bytes with the published cipher specifications (value-level semantics of '
                        'hand-written SIMD). Decided: the structural necessary clause that each of the nine variants, for every cipher mode, '
                        'key size and direction validation accepts, dispatches to kernels whose names carry that mode, key size and '
                        'direction, and that every macro->kernel binding of cipher kernels agrees in key size / direction.')
     inits.rule_bindings(chk, P, 'B1', select=lambda k, v: not HASH_TOK.search(k) and not AEAD_TOK.search(k), floor=300)
     c06.run(chk, mode_filter=lambda m: m not in AEAD_MODES and m != 'IMB_CIPHER_NULL', only_cells=True, ids=('B2', 'B2h', 'B2o'))
+    clones.rule_clones(chk, 'N1', select=lambda s: not _re.search(r'gcm|ccm|cmac|xcbc|ghash|gmac|pon|docsis.*crc', s), floor=20)
